@@ -232,10 +232,29 @@ opt-level = 3
     def build(self, max_rounds=4):
         """Compile everything; cases that do not compile are recorded and stubbed."""
         t0 = time.time()
+        # Never trust build products made from another state of /repo (patch / restore cycles): when the tree
+        # the farm was last built from differs, every shard crate is marked dirty.
+        from common import repo_fingerprint
+        state = repo_fingerprint()
+        stamp = os.path.join(self.dir, ".repo_state")
+        try:
+            with open(stamp) as f:
+                force = f.read() != state
+        except FileNotFoundError:
+            force = False
+        self._force_rebuild = force
+        self._state_stamp = (stamp, state)
         # keep crates small (rustc's memory and wall time grow with the number of modules per crate)
         while len(self.cases) / self.nshards > 120 and self.nshards < 128:
             self.nshards *= 2
         self._write()
+        if self._force_rebuild:
+            now = time.time()
+            for i in range(self.nshards):
+                for fn in ("main.rs", "lib.rs"):
+                    pth = os.path.join(self.dir, self._pkg(i), "src", fn)
+                    if os.path.exists(pth):
+                        os.utime(pth, (now, now))
         for rnd in range(max_rounds):
             self.rounds = rnd + 1
             rc, errors, other, stderr = self._cargo()
@@ -255,9 +274,23 @@ opt-level = 3
         for c in self.cases.values():
             if c.compiles is None:
                 c.compiles = True
+        os.makedirs(self.dir, exist_ok=True)
+        with open(self._state_stamp[0], "w") as f:
+            f.write(self._state_stamp[1])
         self.build_s = time.time() - t0
         log(f"[farm {self.name}] {len(self.cases)} cases, {len(self.stubbed)} do not compile, "
             f"{self.rounds} round(s), {self.build_s:.1f}s")
+
+    def confirm(self, pairs):
+        """Re-execute (request, response) pairs that are about to be reported; an observation that does not
+        reproduce is a machinery problem, never a verdict."""
+        pairs = [(q, r) for q, r in pairs if q is not None]
+        if not pairs:
+            return
+        again = self.run([q for q, _ in pairs])
+        for (q, r), r2 in zip(pairs, again):
+            if (r or {}).get("ok") != (r2 or {}).get("ok") or (r or {}).get("out") != (r2 or {}).get("out"):
+                raise Machinery("farm %s: observation not reproducible for %s: first %r, then %r" % (self.name, json.dumps(q)[:300], r, r2))
 
     def run(self, requests):
         """requests: list of dicts {case, module, what, arg}. Returns responses in order."""
@@ -347,7 +380,7 @@ graphql_client = { path = "%s/graphql_client" }
                 if fn.startswith("case_") and fn not in wanted:
                     os.remove(os.path.join(d, "src", fn))
             mods = "\n".join("pub mod case_%s;" % c for c in by_shard[i])
-            write_if_changed(os.path.join(d, "src", "lib.rs"), "pub mod scalars { pub type Date = String; }\n" + mods + "\n")
+            write_if_changed(os.path.join(d, "src", "lib.rs"), "pub mod scalars { pub type Date = String; pub type date_time = String; pub type DateTime = String; }\n" + mods + "\n")
         write_if_changed(os.path.join(self.dir, "Cargo.toml"), '''[workspace]
 resolver = "2"
 members = [%s]
